@@ -84,6 +84,18 @@ Theorem C08_uptake_avail : forall (x : water_in (T:=R)) (n : nat),
     (0 <= get 0 (wi_tp x) i -> 0 <= tp' <= get 0 (wi_tp x) i).
 Proof. exact uptake_avail_lemma. Qed.
 
+(* the day: what the sub-steps of Water really take out and book as actual ET (per sub-step sum TP[i]*wdt +
+   ETA*wdt goes to PFTRANS, to ETAG after sowing, the TP part to TRAY).  For k >= 1 sub-steps of length 1/k -
+   the shape C01_substeps_cover_day establishes for the day loop's own choice (sum of the sub-step lengths = 1) -
+   the booked amount is ETA + the sum of the clamped uptakes, non-negative and at most the potential ET *)
+Theorem C08_booked_le_pet : forall (e : evatra_in (T:=R)) (x : water_in (T:=R)) (n k : nat),
+  evatra_wf e -> wf_in x n -> wi_subd1 x = true ->
+  wi_tp x = eo_tp (evatra_struct e) -> wi_eta x = eo_eta (evatra_struct e) ->
+  (1 <= k)%nat -> wi_wdt x = / INR k ->
+  booked_aet k x = wi_eta x + Rsum (wo_tp (water_step x)) /\
+  0 <= booked_aet k x <= ei_verdu e.
+Proof. exact booked_le_pet_lemma. Qed.
+
 (* the stress ratios: ETREL in [0,1] whenever it is assigned (crop branch; unchanged on bare soil);
    TRREL in [0,1] when TRAMAX > 0, unchanged when TRAMAX <= 0 in the crop branch, 1 on bare soil *)
 Theorem C08_ratios : forall x : evatra_in (T:=R), evatra_wf x ->
@@ -169,6 +181,7 @@ Print Assumptions C08_redistribute.
 Print Assumptions C08_redistribute_in_evatra.
 Print Assumptions C08_uptake_zone.
 Print Assumptions C08_uptake_avail.
+Print Assumptions C08_booked_le_pet.
 Print Assumptions C08_ratios.
 Print Assumptions C08_pet_in_range.
 Print Assumptions C08_et0_methods_nonneg.
